@@ -1,6 +1,7 @@
 CONSTANTS
   MaxLines = 2
   MaxInd = 2
+  Pool <- AllBodies
   MaxRewrites = 3
 INIT Init
 NEXT Next
